@@ -251,7 +251,8 @@ def _constant(_):
 
 def _edge(_):
     st = Stats()
-    for text in (HEADER + '\n', HEADER, HEADER + '\n\n', HEADER + '\n' + good_row(1) + '\n'):
+    many_bad = render(tuple('gb' * 40 + 'ggg'), 'few')      # 40 malformed rows: more than a small bounded buffer of samples can hold
+    for text in (HEADER + '\n', HEADER, HEADER + '\n\n', HEADER + '\n' + good_row(1) + '\n', many_bad):
         for mb, sub in ((1, 1), (2, 1), (1, 2)):
             fails, info = pipeline.judge_streaming(text, dict(minibatch_size=mb, subsampling=sub))
             st.count('evaluations')
